@@ -14,6 +14,8 @@ import (
 	"encoding/hex"
 	"fmt"
 	"net"
+	"os"
+	"path/filepath"
 	"strings"
 	"time"
 
@@ -26,6 +28,7 @@ import (
 	"github.com/semihalev/sdns/middleware/as112"
 	"github.com/semihalev/sdns/middleware/cache"
 	"github.com/semihalev/sdns/middleware/edns"
+	"github.com/semihalev/sdns/middleware/hostsfile"
 	"github.com/semihalev/sdns/internal/verif/srvh"
 	"github.com/semihalev/sdns/middleware/ratelimit"
 	"github.com/semihalev/sdns/middleware/reflex"
@@ -440,4 +443,92 @@ func execSock(f []string) vlib.Res {
 		return vlib.Res{Impl: fmt.Sprintf("verdict=%d udp=%s tcp=%s", verdict, u, t), Oracle: or, Tags: "nt"}
 	}
 	return vlib.Res{Impl: "bad-op"}
+}
+
+// ---------------------------------------------------------------- hs
+
+// `hs run name= qt=`: the REAL Hostsfile.ServeDNS behind a wire-born and a message-born
+// request over one fixed hosts database (see hsContent; the Lean driver holds the same table).
+const hsContent = `192.0.2.10 host1.zt
+2001:db8::10 host1.zt
+192.0.2.11 Host2.zt
+192.0.2.12 *.wild.zt
+2001:db8::12 *.wild6.zt
+192.0.2.14 canon.zt alias.zt
+`
+
+var (
+	hsH   *hostsfile.Hostsfile
+	hsDir string
+)
+
+func hsOut(o *outcome, sent string) string {
+	switch {
+	case o == nil:
+		return "none"
+	case o.pr.reached:
+		return "next"
+	case o.w.Msg() != nil:
+		m := o.w.Msg()
+		var t []string
+		for _, r := range m.Answer {
+			t = append(t, fmt.Sprint(r.Header().Rrtype))
+		}
+		an := "-"
+		if len(t) > 0 {
+			an = strings.Join(t, "+")
+		}
+		echo := "t"
+		if len(m.Question) != 1 || m.Question[0].Name != sent {
+			echo = "f"
+		}
+		return fmt.Sprintf("reply/rc=%d/aa=%s/an=%s/echo=%s", m.Rcode, vlib.B(m.Authoritative), an, echo)
+	}
+	return "drop"
+}
+
+func execHS(f []string) vlib.Res {
+	a := kv(f[2:])
+	switch f[1] {
+	case "new":
+		base := os.Getenv("VERIF_DIR")
+		if base == "" {
+			base = "/verif"
+		}
+		hsDir = filepath.Join(base, "build", "tmp-c05", fmt.Sprintf("hs-%d", os.Getpid()))
+		_ = os.MkdirAll(hsDir, 0o750)
+		p := filepath.Join(hsDir, "hosts")
+		_ = os.WriteFile(p, []byte(hsContent), 0o640)
+		hsH = hostsfile.New(&config.Config{HostsFile: p})
+		if hsH == nil {
+			return vlib.Res{Impl: "no-hosts", Oracle: "FAIL sig=c05/harness/hostsfile-not-loaded"}
+		}
+		return vlib.Res{Impl: "ok", Oracle: "-"}
+	case "run":
+		if hsH == nil {
+			return vlib.Res{Impl: "no-hs"}
+		}
+		m := new(dns.Msg)
+		m.SetQuestion(a["name"], uint16(vlib.Atoi(a["qt"])))
+		m.Id = 11
+		pkt, err := m.Pack()
+		if err != nil {
+			return vlib.Res{Impl: "unpackable"}
+		}
+		ws, ms := hsOut(runWire(hsH, pkt, "udp", "203.0.113.9:4242", false), a["name"]), hsOut(runMsg(hsH, pkt, "udp", "203.0.113.9:4242"), a["name"])
+		or := "ok"
+		if ws != ms {
+			or = fmt.Sprintf("FAIL sig=c05/hostsfile/branches-differ wire=%s msg=%s", ws, ms)
+		} else if strings.HasSuffix(ws, "echo=f") {
+			or = "FAIL sig=c05/hostsfile/question-not-echoed"
+		}
+		return vlib.Res{Impl: "w=" + ws + " m=" + ms, Oracle: or, Tags: "nt"}
+	}
+	return vlib.Res{Impl: "bad-op"}
+}
+
+func hsCleanup() {
+	if hsDir != "" {
+		_ = os.RemoveAll(hsDir)
+	}
 }
